@@ -73,10 +73,11 @@ static void expect_refused(const char *what, long r) {
 static void *thread_b(void *) {
     sem_wait(&to_b);
     m_mod_t *bm = nullptr;
-    if (g_case->bkind == 1) {
+    if (g_case->bkind >= 1) {
         if (m_ctx_register("ctxB", (m_ctx_flags)0, nullptr) != 0) v.fail("C14.H", "B could not register its own context");
         m_mod_hook_t hk = {nullptr, nullptr, b_evt, nullptr};
-        if (m_mod_register("bmod", &bm, &hk, (m_mod_flags)0, nullptr) != 0 || m_mod_start(bm) != 0) v.fail("C14.H", "B could not set up its own module");
+        // kind 2: B's own module carries the same name as A's module (names are per context; identity is what counts)
+        if (m_mod_register(g_case->bkind == 2 ? "amod" : "bmod", &bm, &hk, (m_mod_flags)0, nullptr) != 0 || m_mod_start(bm) != 0) v.fail("C14.H", "B could not set up its own module");
         m_ctx_set_logger(quiet_logger);
     }
     static m_src_tmr_t tmr_new = {CLOCK_MONOTONIC, 7000000}, tmr_old = {CLOCK_MONOTONIC, 50000000};
@@ -197,14 +198,14 @@ static rt::Verdict run_case(const Case &c, const rt::Args &) {
     m_mod_deregister(&am); m_mod_deregister(&am2); m_ctx_deregister();
     close(a_pipe[0]); close(a_pipe[1]);
     v.nontrivial = true;
-    v.classes.push_back("state=" + std::to_string(c.state)); v.classes.push_back(c.bkind ? "B-own-ctx" : "B-no-ctx");
+    v.classes.push_back("state=" + std::to_string(c.state)); v.classes.push_back(c.bkind == 2 ? "B-own-ctx-same-module-name" : c.bkind ? "B-own-ctx" : "B-no-ctx");
     for (int call : c.calls) v.classes.push_back(std::string("call:") + call_names[call]);
     return v;
 }
 
 static bool exhaustive(const rt::Args &args, rt::Stats &stats, rt::Failure &failure) {
     uint64_t idx = 0, total = 0;
-    for (int state = 0; state < 4; state++) for (int bkind = 0; bkind < 2; bkind++) for (int call = 0; call < K_NCALLS; call++) {
+    for (int state = 0; state < 4; state++) for (int bkind = 0; bkind < 3; bkind++) for (int call = 0; call < K_NCALLS; call++) {
         if ((idx++ % args.nshards) != (uint64_t)args.shard) continue;
         Case c; c.state = state; c.bkind = bkind; c.calls = {call};
         rt::Verdict vv = rt::run_forked(args.prop, [&] { return run_case(c, args); });
@@ -212,20 +213,20 @@ static bool exhaustive(const rt::Args &args, rt::Stats &stats, rt::Failure &fail
         if (!vv.ok) { failure.present = true; failure.rule = vv.rule; failure.message = vv.message; failure.text = to_text(c); return false; }
     }
     stats.exhaustive = true;
-    stats.exhaustive_note = "every (module state x foreign thread kind x public module call) combination: 4 x 2 x " + std::to_string((int)K_NCALLS);
+    stats.exhaustive_note = "every (module state x foreign thread kind x public module call) combination: 4 x 3 x " + std::to_string((int)K_NCALLS);
     stats.counters["matrix_cells"] = total;
     return true;
 }
 
 static rc::Gen<Case> gen_case(const rt::Args &) {
     using namespace rc;
-    return gen::map(gen::tuple(gens::range(0, 4), gens::range(0, 2), gens::vec<int>(1, 8, gens::range<int>(0, (int)K_NCALLS))), [](std::tuple<int, int, std::vector<int>> t) {
+    return gen::map(gen::tuple(gens::range(0, 4), gens::range(0, 3), gens::vec<int>(1, 8, gens::range<int>(0, (int)K_NCALLS))), [](std::tuple<int, int, std::vector<int>> t) {
         Case c; c.state = std::get<0>(t); c.bkind = std::get<1>(t); c.calls = std::get<2>(t); return c; });
 }
 
 int main(int argc, char **argv) {
     rcm::Engine<Case> E;
-    E.rule_text = "foreign-thread matrix: thread A owns a context with a module in a generated state (idle/running/paused/stopped) holding a subscription, a descriptor, a timer and a threshold source; thread B (own context+module, or none) performs, strictly sequentially, every public module call on A's handle (exhaustive 4 x 2 x 38 single-call matrix, then random sequences of 1-8 calls). Oracle: each call fails (negative / NULL), plain getters answer, and A's state, per-kind source counts, counters, context size and later pub/sub behaviour are unchanged. Every case is non-trivial (distinct = distinct case text).";
+    E.rule_text = "foreign-thread matrix: thread A owns a context with a module in a generated state (idle/running/paused/stopped) holding a subscription, a descriptor, a timer and a threshold source; thread B (no context / own context and module / own context with a module of the same name as A's) performs, strictly sequentially, every public module call on A's handle (exhaustive 4 x 3 x 38 single-call matrix, then random sequences of 1-8 calls). Oracle: each call fails (negative / NULL), plain getters answer, and A's state, per-kind source counts, counters, context size and later pub/sub behaviour are unchanged. Every case is non-trivial (distinct = distinct case text).";
     E.gen = gen_case; E.eval = run_case; E.to_text = to_text; E.from_text = from_text;
     E.default_cases = [](const rt::Args &a) { return a.tier == "thorough" ? 3000L : 120L; };
     E.exhaustive = exhaustive;
